@@ -1,3 +1,5 @@
+//go:build all || c16
+
 package props
 
 import (
